@@ -196,7 +196,11 @@ def run_drift(case: dict):
 
 
 def gen_case(rng: random.Random, prop: str) -> dict:
-    return gen_ramsey(rng) if prop == "C07" else gen_drift(rng)
+    # C07 counts the EOM drift corrections among the phase shifts of a reference: a third of its emulator
+    # cases are drift cases too
+    if prop == "C07":
+        return gen_ramsey(rng) if rng.random() < 0.67 else gen_drift(rng)
+    return gen_drift(rng)
 
 
 def run_case(case: dict):
